@@ -11,8 +11,8 @@ KANI_DIR = os.path.join(build.VERIF, "kani")
 def run_harness(name, features=(), timeout_s=900, playback=True, extra_args=(), mem_gb=14, target="kani-target"):
     """returns dict(status='success'|'failed'|'error'|'timeout', time_s, covers=(sat,total), failed_checks=[...], playback=[bytes...], log=path)"""
     os.makedirs(os.path.join(build.BUILD, "kani-logs"), exist_ok=True)
-    log = os.path.join(build.BUILD, "kani-logs", name.replace(":", "_") + ".log")
-    cmd = ["cargo", "kani", "--target-dir", os.path.join(build.BUILD, target), "--harness", name]
+    log = os.path.join(build.BUILD, "kani-logs", name.replace(":", "_") + build.ALT + ".log")
+    cmd = ["cargo", "kani", "--target-dir", build.bdir(target), "--harness", name]
     if features:
         cmd += ["--features", ",".join(features)]
     if playback:
@@ -23,7 +23,7 @@ def run_harness(name, features=(), timeout_s=900, playback=True, extra_args=(), 
         pass    # serialise nothing but make sure the dir exists
     sh = "ulimit -v %d; exec %s" % (mem_gb * 1024 * 1024, " ".join("'%s'" % c for c in cmd))
     # own process group: on timeout the whole tree (cargo-kani, kani-driver, cbmc) is killed, not just the shell
-    proc = subprocess.Popen(["bash", "-c", sh], cwd=KANI_DIR, env=build.ENV, stdout=subprocess.PIPE, stderr=subprocess.STDOUT, start_new_session=True)
+    proc = subprocess.Popen(["bash", "-c", sh], cwd=build.crate_dir("kani"), env=build.ENV, stdout=subprocess.PIPE, stderr=subprocess.STDOUT, start_new_session=True)
     try:
         raw, _ = proc.communicate(timeout=timeout_s)
         out = raw.decode(errors="replace")
